@@ -6,12 +6,14 @@ the definitions the theorems in S3V/Props/* are about.
 import S3V.Driver.Plan
 import S3V.Driver.Sema
 import S3V.Driver.Defer
+import S3V.Driver.Coord
 
 namespace S3V.Driver
 
 structure DState where
   sema : SemaD := {}
   defer : S3V.Defer.DQ Nat := S3V.Defer.DQ.init
+  coord : S3V.Coord.Coord := {}
 
 def DState.init : DState := {}
 
@@ -20,6 +22,7 @@ def step (st : DState) (line : String) : DState × String :=
   match toks with
   | ["reset"] => (DState.init, "ok")
   | "plan" :: rest => (st, planStep rest)
+  | "coord" :: rest => let r := coordStep st.coord rest; ({ st with coord := r.1 }, r.2)
   | "defer" :: rest => let r := deferStep st.defer rest; ({ st with defer := r.1 }, r.2)
   | "sema" :: _ | "tsem" :: _ | "cci" :: _ | "bsema" :: _ =>
     let r := semaStep st.sema toks; ({ st with sema := r.1 }, r.2)
